@@ -268,6 +268,9 @@ NewMIMOGeneCopy(g, node) == NewMIMOGene(node, g.inn, g.mut, g.en)
 RECURSIVE IntersectLoop(_, _, _)
 IntersectLoop(io, S, i) == IF i > Len(io) THEN FALSE ELSE IF io[i] \in S THEN TRUE ELSE IntersectLoop(io, S, i + 1)
 HasIntersection(g, S) == IntersectLoop(g.io, S, 1)
+\* the only place the ORDER of the IO nodes shows: crossover (mateModules) appends to the child, for an inherited control
+\* gene, the IO nodes the child does not have yet - in IO order, once per occurrence
+ModuleExtraNodes(g, S) == IF HasIntersection(g, S) THEN SelectSeq(g.io, LAMBDA n : n \notin S) ELSE <<>>
 MIMOLaws(node, inn, mut, en, S) ==
     LET g == NewMIMOGene(node, inn, mut, en) IN
     /\ HasIntersection(g, S) <=> Range(g.io) \cap S # {}
@@ -275,6 +278,7 @@ MIMOLaws(node, inn, mut, en, S) ==
     /\ g.io = <<>> => ~HasIntersection(g, S)
     /\ \A T \in SUBSET S : HasIntersection(g, T) => HasIntersection(g, S)
     /\ NewMIMOGeneCopy(g, node) = g
+    /\ Range(ModuleExtraNodes(g, S)) \cap S = {} /\ Range(ModuleExtraNodes(g, S)) \subseteq Range(g.io)
 
 \* innovation records: LinkRec / NodeRec of Genome.tla are what the three constructors store
 InnovationForNode(u, v, i1, i2, n, old) == NodeRec(u, v, old, i1, i2, n)
